@@ -14,7 +14,7 @@ def main():
     res = []
     try:
         for m in MUTANTS:
-            if want and m['prop'] not in want: continue
+            if want and m['prop'] not in want and not any(m['id'].upper().startswith(w) for w in want): continue
             subprocess.run(['rsync', '-a', '--delete', '--exclude', '_build', '--exclude', '.git', '/repo/', scratch + '/'], check=True)
             p = os.path.join(scratch, m['file'])
             s = open(p).read()
